@@ -78,7 +78,7 @@ Definition spec_filter (fo : fop * ffield) (l : list triple) : list triple + ler
    k < 0 skip the first n*k elements. *)
 Definition spec_page {A : Type} (lo : lopts) (l : list A) : list A :=
   let n := lo_max lo in let k := lo_offset lo in
-  let skip := wrap64 (n * k) in        (* = n * k whenever |n * k| < 2^63; the int arithmetic of Go otherwise *)
+  let skip := skip_count n k in        (* = n * k below 2^63, and 2^63-1 (beyond every list) when n, k > 0 overflow *)
   if Z.gtb n 0 then firstn (Z.to_nat n) (skipn (Z.to_nat skip) l)
   else skipn (Z.to_nat skip) l.
 
